@@ -242,6 +242,10 @@ def r06_2(ctx):
                     return queue[k].pop(0)
             return bk.BrownianHooks.decide(self, interp, test, env, fi)
     hooks = H2()
+    # one representative ordering for every other test on the times (a guard that the midpoint lies strictly inside the
+    # node, say): node [0, 8], children [0, 4] and [4, 8], a requested point in the right half
+    hooks.ordering = {"a": Fraction(0), "b": Fraction(8), "QUERYPOINT": Fraction(5), "_left_child.start": Fraction(0),
+                      "_left_child.end": Fraction(4), "_right_child.start": Fraction(4), "_right_child.end": Fraction(8)}
     it = Interp(model, hooks)
     node = Obj("node", cls=icls, attrs={"_top": top, "_start": nf.sym("a", True), "_end": nf.sym("b", True),
                                         "_midway": None})
